@@ -622,7 +622,8 @@ def shared_cache_publication(ctx, rid="R12.6"):
                     "true, so every miss replaces the level by an empty dict and drops what other requests had cached"
                     % (f.qual, "; ".join(literal_guards)), detail={"guards": literal_guards})
     if n < 1:
-        raise AnalysisError("%s: no shared multi-level cache lookup found (expected _utils.moduleFactoryFactory.moduleFactory)" % rid)
+        r.idiom(rid, False, "shared-cache-found", "_utils.py",
+                "no shared multi-level cache lookup found (expected _utils.moduleFactoryFactory.moduleFactory): publication order not decided")
 
 
 def lossy_cache_keys(ctx, rid):
@@ -665,6 +666,11 @@ def lossy_cache_keys(ctx, rid):
                     continue
                 break
             key_exprs = [assigns.get(k.id, k) if isinstance(k, ast.Name) else k for k in keys]
+            # a composite key `(a, b, f(c))` is the list of its components
+            flat = []
+            for e in key_exprs:
+                flat.extend(e.elts if isinstance(e, ast.Tuple) else [e])
+            key_exprs = [assigns.get(k.id, k) if isinstance(k, ast.Name) else k for k in flat]
             # does the stored value depend on a star parameter?
             def depends(expr, seen=()):
                 for x in ast.walk(expr):
